@@ -11,7 +11,7 @@ NAIVE_LOCAL = "datetime::DateTime::<Tz>::naive_local"
 def run(chk, tier):
     P = Prog("default")
     chk.configs.add("default")
-    for r in (r_guards, r_digits, r_basis, r_subsecs, r_unchanged, r_absint):
+    for r in (r_guards, r_digits, r_basis, r_subsecs, r_unchanged, r_rounding_map, r_absint):
         chk.guarded(r, P, tier)
     chk.assume("which multiple is returned, tie breaking and idempotence are numerical and NOT decided")
     return {
@@ -185,3 +185,118 @@ def r_unchanged(chk, P, tier):
                 break
         else:
             chk.ok(fn + " (%d Ok paths)" % n)
+
+
+def r_rounding_map(chk, P, tier):
+    """Which multiple is returned, as a residue-class value map. The three helpers compute from (stamp, span) a signed correction that is added to or subtracted from the
+    caller's value with the type's own operator (kept symbolic: the helpers are generic). The correction depends on the sign of the stamp and on where stamp mod span lies
+    relative to 0, span/2 and span. The def-use terms are folded (no execution) for spans 1, 2, 3, 7, 10, 10^3, 10^6, 10^9, a minute, an hour, a day, a week, 2^62 and
+    i64::MAX ns, and for every span for stamps k*span + r with k in -3..=2 and r on both sides of each of those residue boundaries, plus both ends of the
+    64-bit-nanosecond window; expected: floor / ceiling / nearest-with-ties-up multiple in exact integers. Also folded: the failure classes (span <= 0, span not expressible
+    in ns, stamp outside the window) and round_subsecs / trunc_subsecs for every digit count 0..=10 over the residues of the nanosecond field including leap-second values."""
+    import calendar_oracle as cal
+    from finmap import Folder, show, Unknown
+    from rules import table_value
+    from props.c01 import flags_of
+    chk.rule("MAP.rounding", "duration_round / _trunc / _round_up and round_subsecs / trunc_subsecs folded on all residue boundaries return the nearest-ties-up / floor / ceiling multiple; failures as documented", floor=1700)
+    fo = Folder(P, max_depth=14, opaque=lambda n: n in ("std::ops::Add::add", "std::ops::Sub::sub"))
+    tbl = [flags_of(c) for c in table_value(P, "naive::internals::YEAR_TO_FLAGS")]
+    NS = 10**9
+    epoch = cal.day_number(1970, 1, 1)
+    I64 = (-(2**63), 2**63 - 1)
+
+    def from_dn(n):
+        y = n * 400 // 146097
+        while cal.day_number(y, 1, 1) > n:
+            y -= 1
+        while cal.day_number(y + 1, 1, 1) <= n:
+            y += 1
+        return y, n - cal.day_number(y, 1, 1) + 1
+
+    def ndt(stamp):
+        secs, frac = stamp // NS, stamp % NS
+        y, o = from_dn(secs // 86400 + epoch)
+        yof = (y << 13) | (o << 4) | tbl[y % 400]
+        return ("agg", "adt", "naive::datetime::NaiveDateTime", "NaiveDateTime",
+                (("agg", "adt", "naive::date::NaiveDate", "NaiveDate", (("const", yof),), 0), ("agg", "adt", "naive::time::NaiveTime", "NaiveTime", (("const", secs % 86400), ("const", frac)), 0)), 0)
+
+    def td(n):
+        return ("agg", "adt", "time_delta::TimeDelta", "TimeDelta", (("const", n // NS), ("const", n % NS)), 0)
+
+    def correction(v):
+        """signed correction in ns of a shown Ok(original [+|- TimeDelta]) value, or the error name"""
+        if isinstance(v, tuple) and v[0] == "Result::Err":
+            return v[1]
+        if isinstance(v, tuple) and v[0] == "Result::Ok":
+            r = v[1]
+            if r == "arg99":
+                return 0
+            if isinstance(r, tuple) and r[0] == "opaque" and r[2] == "arg99" and isinstance(r[3], tuple) and r[3][0] == "TimeDelta::TimeDelta":
+                n = r[3][1] * NS + r[3][2]
+                return n if r[1].endswith("add") else -n
+        return ("?", v)
+    spans = (1, 2, 3, 7, 10, 1000, 10**6, NS, 60 * NS, 3600 * NS, 86400 * NS, 7 * 86400 * NS, 2**62, I64[1])
+    bad = {}
+    n_ok = [0]
+
+    def expect(cls, a, got, w):
+        if got == w:
+            n_ok[0] += 1
+        else:
+            bad.setdefault(cls, (a, got, w))
+    for span in spans:
+        rs = sorted({r for r in (0, 1, span // 2 - 1, span // 2, span // 2 + 1, (span + 1) // 2, span - 1) if 0 <= r < span})
+        stamps = {k * span + r for k in (-3, -2, -1, 0, 1, 2) for r in rs} | {I64[0] + 1, I64[0] + 2, I64[1] - 1, I64[1], -1, 0, 1}
+        for t in sorted(stamps):
+            if not I64[0] < t <= I64[1]:
+                continue
+            lo = t - t % span
+            hi = lo if lo == t else lo + span
+            want = {"round::duration_trunc": lo - t, "round::duration_round_up": hi - t, "round::duration_round": (hi - t) if (hi - t) <= (t - lo) else (lo - t)}
+            for fn in FNS:
+                try:
+                    got = correction(show(fo.call(fn, [ndt(t), ("arg", 99), td(span)])))
+                except Unknown as e:
+                    got = "unknown: %s" % e
+                side = "multiple" if t % span == 0 else ("stamp < 0" if t < 0 else "stamp > 0")
+                expect("%s (%s)" % (fn.split("::")[-1], side), (t, span), got, want[fn])
+    mid = ndt(1234567890123456789)
+    for fn in FNS:
+        for span, w in ((0, "RoundingError::DurationExceedsLimit"), (-1, "RoundingError::DurationExceedsLimit"), (-(2**63 - 1) * 10**6, "RoundingError::DurationExceedsLimit"),
+                        (I64[1] + 1, "RoundingError::DurationExceedsLimit"), ((2**63 - 1) * 10**6, "RoundingError::DurationExceedsLimit")):
+            try:
+                got = correction(show(fo.call(fn, [mid, ("arg", 99), td(span)])))
+            except Unknown as e:
+                got = "unknown: %s" % e
+            expect("%s (span refused)" % fn.split("::")[-1], span, got, w)
+        for t in (I64[0] - 1, I64[0] - NS, I64[1] + 1, I64[1] + 400 * 365 * 86400 * NS, -(300 * 365 * 86400 * NS) * 2):
+            try:
+                got = correction(show(fo.call(fn, [ndt(t), ("arg", 99), td(NS)])))
+            except Unknown as e:
+                got = "unknown: %s" % e
+            # i64::MIN itself is representable by timestamp_nanos_opt; one below is not
+            expect("%s (stamp outside the window)" % fn.split("::")[-1], t, got, "RoundingError::TimestampExceedsLimit")
+    # sub-second rounding: the nanosecond() call of the generic receiver is bound to each value
+    for fn, mode in (("<T as round::SubsecRound>::round_subsecs", "round"), ("<T as round::SubsecRound>::trunc_subsecs", "trunc")):
+        keys = {pp(c) for p_ in Sym(P, fn).paths() for t in [x[1] for x in p_.conds] + ([p_.ret] if p_.end[0] == "return" else []) for c in find_calls(t) if c[1].endswith("Timelike::nanosecond") or str(c[1]).endswith("::nanosecond")}
+        if len(keys) != 1:
+            raise AnchorLost("%s: expected one nanosecond() term, found %s" % (fn, sorted(keys)))
+        key = keys.pop()
+        for digits in list(range(0, 11)) + [65535]:
+            span = 10 ** (9 - min(9, digits))
+            rs = sorted({r for r in (0, 1, span // 2 - 1, span // 2, span // 2 + 1, span - 1) if 0 <= r < span})
+            vals = sorted({k * span + r for k in (0, 1, (NS // span) - 1, NS // span, 2 * (NS // span) - 1) for r in rs if 0 <= k * span + r < 2 * NS})
+            for nano in vals:
+                lo = nano - nano % span
+                hi = lo if lo == nano else lo + span
+                w = (lo - nano) if mode == "trunc" else ((hi - nano) if (hi - nano) <= (nano - lo) else (lo - nano))
+                try:
+                    v = show(fo.call(fn, [("arg", 99), ("const", digits)], bind={key: nano}))
+                    got = correction(("Result::Ok", v))
+                except Unknown as e:
+                    got = "unknown: %s" % e
+                expect("%s_subsecs" % mode, (nano, digits), got, w)
+    for _ in range(n_ok[0]):
+        chk.ok("value")
+    for cls, (a, got, w) in sorted(bad.items()):
+        chk.bad(cls, "%s: (stamp / nanosecond, span / digits) = %s folds to a correction of %s, exact arithmetic gives %s" % (cls, a, got, w), loc=P.loc("round::duration_round"))
